@@ -49,7 +49,9 @@ TRUSTED = ["the exception-class oracle, the watchdog (5 s of CPU per call, 60 s 
            "wall-clock hangs and BytesIO positions are observed by the harness only"]
 ASSUMPTIONS = ["configuration integers (sizes, indexes, bit counts) passed beside the hostile bytes/text/JSON are drawn from "
                "plausible values: the property quantifies over bytes, text and JSON",
-               "an object accepted under check_validity=False from a JSON document is not handed to consumers"]
+               "an object accepted under check_validity=False from a JSON document is not handed to consumers",
+               "keyword pairs that the API requires together (commit/commit_hash with receipt: a documented BTClibTypeError "
+               "caller error, not an invalid signature) are left at their defaults by the typed generator"]
 
 ORACLES = {"call": C.replay_call}
 
@@ -184,6 +186,7 @@ def _worker(task):
     C.install_watchdog()
     R = C.Recorder()
     rng = random.Random(seed)
+    rng.seed_value = seed
     t0 = time.time()
     try:
         if group.startswith("exhaustive:"):
@@ -278,8 +281,10 @@ def _stream_lines(ctx):
         if rng.random() < 0.5 and len(s) > 1:
             i = rng.randrange(len(s))
             trees.append(s[:i] + rng.choice(["{", "}", ",", "a", ""]) + s[i + 1:])
-    for d in (126, 127, 128, 129, 130, 200):       # a left spine of depth d: the generated MAX_TREE_DEPTH decides
+    for d in (126, 127, 128, 129, 130, 200):       # spines of depth d on either side: the generated MAX_TREE_DEPTH decides
         trees.append("{" * d + "a" + ",b}" * d)
+        trees.append("{a," * d + "b" + "}" * d)
+        trees.append("{{a,b}," * d + "c" + "}" * d)
     lines["tree"] = [f"tree {s}" for s in trees if s and " " not in s]
     return lines
 
@@ -317,7 +322,11 @@ def run(ctx):
             k = min(chunk, n)
             tasks.append((g, ctx.rng.getrandbits(62), k))
             n -= k
-    tasks.append(("deep", ctx.rng.getrandbits(62), ctx.n(260, 2500)))
+    for part in range(4):           # the four parts of the deterministic deep/digit-run case list
+        tasks.append(("deep", (ctx.rng.getrandbits(60) << 2) | part, ctx.n(700, 4000)))
+    for part in range(2):
+        tasks.append(("psbtdegenerate", (ctx.rng.getrandbits(60) << 1) | part, 10**6))
+        tasks.append(("msdecode", (ctx.rng.getrandbits(60) << 1) | part, ctx.n(9000, 10**7)))
     if ctx.tier == "thorough":
         for name in sorted(S.CLASS_BIN):
             tasks.append((f"exhaustive:{name}", 0, 0))
@@ -334,7 +343,7 @@ def run(ctx):
             if name in S.CLASS_BIN:
                 tasks.append((f"exhaustive:{name}", 0, 0))
     # heavy tasks first
-    tasks.sort(key=lambda t: (not t[0].startswith(("deep", "exhaustive", "everykey", "json", "witness")), t[0]))
+    tasks.sort(key=lambda t: (not t[0].startswith(("deep", "psbtdeg", "exhaustive", "everykey", "json", "witness")), t[0]))
     t0 = time.time()
     mp = multiprocessing.get_context("fork")
     per_group_secs = {}
